@@ -108,6 +108,9 @@ MetaFailing(r, o) ==
     ELSE IF \E i \in 1..Len(o.origins) : o.origins[i] # o.base THEN "VerdictIndependentOfOrigin"
     ELSE IF \E i \in 1..Len(o.fontface) : o.fontface[i] # o.fontface[1] THEN "VerdictIndependentOfOriginInFontFace"
     ELSE IF o.rulevalid # o.base \/ o.sheetvalid # o.base THEN "RuleAndSheetValidAreConjunctions"
+    \* ... wherever the declaration sits: in a style rule inside @media, among the (otherwise valid) descriptors of an @font-face rule
+    ELSE IF o.nested.media_sheet # o.base \/ o.nested.page_sheet # o.base THEN "RuleAndSheetValidAreConjunctions"
+    ELSE IF o.nested.ff_others /\ o.nested.ff_sheet # o.nested.ff_decl THEN "RuleAndSheetValidAreConjunctions"
     ELSE IF o.text_validate_on # o.text_validate_off THEN "ValidationOnlyAnnotates"
     ELSE IF o.dom_validate_on # o.dom_validate_off THEN "ValidationOnlyAnnotates"
     ELSE "ok"
